@@ -304,6 +304,36 @@ fn prose_extra(thorough: bool) -> ExtraLevel {
     ExtraLevel { name: format!("prose sequences <= {n} in markup contexts and at markup edges"), inputs: families::prose(n, false) }
 }
 
+/// "Start from non-initial states": the formatter's own outputs at narrow widths (its broken,
+/// multi-line layouts, which the one-line canonical templates never spell) as inputs, explored with
+/// the full configuration policy. Second generation of every canonical k <= 1 instance (and of the
+/// main contexts at k = 2 in the thorough tier) at widths 0 and 20 with indent units 2 and 4.
+fn gen2_extra(m: &Model, thorough: bool) -> ExtraLevel {
+    let subject = Real;
+    let mut sks = sweep::skeletons(m, &all_ctx(), &[0, 1], &[Size::Short, Size::AllMid]);
+    if thorough {
+        sks.extend(sweep::skeletons(m, &MAIN_CTX, &[2], &[Size::Short]));
+    }
+    let mut inputs: Vec<(String, String)> = vec![];
+    let mut seen = std::collections::HashSet::new();
+    for sk in &sks {
+        let t = m.instantiate(sk);
+        if !tyv_model::syntax::wellformed(&t) {
+            continue;
+        }
+        let d = m.describe(sk);
+        for (w, tab) in [(0usize, 2usize), (20, 2), (0, 4)] {
+            let cfg = Cfg { max_width: w, tab_spaces: tab, reorder: false, blank: 2 };
+            if let Ok(Ok(o)) = tyv_model::subject::guarded(|| subject.format(&t, &cfg)) {
+                if o != t && tyv_model::syntax::wellformed(&o) && seen.insert(sweep::h64(&o, 0)) {
+                    inputs.push((format!("gen2:{d}@w{w}t{tab}"), o));
+                }
+            }
+        }
+    }
+    ExtraLevel { name: "second generation: the formatter's outputs at widths 0 and 20 as inputs".into(), inputs }
+}
+
 /// Development aid (not a check): (parent kind, child kind) pairs and child-kind triples that occur
 /// in the given Typst files but in no canonical instance of the model (contexts x spines k <= 2,
 /// plus the free-standing families). Each line names a piece of grammar the sweep never builds.
@@ -379,6 +409,7 @@ fn plan_for(id: &str, thorough: bool) -> Option<Plan> {
             extra: vec![
                 ExtraLevel { name: "whitespace spellings (mixed newline styles, long runs)".into(), inputs: families::ws_spellings() },
                 prose_extra(thorough),
+                gen2_extra(&m, thorough),
             ],
             policy: std_policy(sparse),
             assumptions: vec![two_uses, wrapper, "typst_syntax 0.13.1 is the reference parser (same version as the subject's)".into()],
@@ -430,6 +461,7 @@ fn plan_for(id: &str, thorough: bool) -> Option<Plan> {
             },
             extra: vec![
                 prose_extra(thorough),
+                gen2_extra(&m, thorough),
                 // what the trailing-blank pass sees: its first run must leave nothing for a second one
                 ExtraLevel { name: "degenerate documents".into(), inputs: families::degenerate() },
                 ExtraLevel { name: "line ends inside verbatim text: carriers x blank characters x LF/CRLF/CR/mixed x clean/dirty remainder".into(), inputs: families::line_ends() },
@@ -441,7 +473,7 @@ fn plan_for(id: &str, thorough: bool) -> Option<Plan> {
         "C04" => Plan {
             oracle: Box::new(oracles::basic::C04),
             levels: full_levels_without(&m, thorough, model::FORMS_ALL, model::FORMS_QUICK, &["lc", "bc", "nl", "none"], &["codeblock,let,arg/chains", "ctx*/k<=1/mid+tail", "let,arg,codeblock/decorated"]),
-            extra: vec![prose_extra(thorough)],
+            extra: vec![prose_extra(thorough), gen2_extra(&m, thorough)],
             policy: std_policy(sparse),
             assumptions: vec![two_uses, wrapper],
             model: m,
